@@ -63,9 +63,10 @@ Fixpoint replay (cf : cfg) (ips : list N) (s : st) (bs : list block) : option st
   end.
 
 Definition conn_corr (r : crec) (x : connres) : bool :=
-  (if resp r =? 0 then (cr_status x =? 0) || (cr_status x =? 200) else cr_status x =? resp r)
+  (if resp r =? 0 then negb ((cr_status x =? StatusTooManyRequests) || (cr_status x =? StatusServiceUnavailable) || (cr_status x =? -1))
+   else cr_status x =? resp r)
   && Bool.eqb (closed r) (1 <=? cr_closed x)
-  && match ph r with PDone => Bool.eqb (resp r =? 0) (1 <=? cr_entered x) | _ => true end.
+  && (if resp r =? 0 then true else cr_entered x =? 0).
 
 Fixpoint forallb2 {A B} (f : A -> B -> bool) (a : list A) (b : list B) : bool :=
   match a, b with
